@@ -81,6 +81,7 @@ type agg struct {
 	viol       map[string]*RunResult // first run per violation key
 	violCount  map[string]int
 	abortedByPanic int
+	thirdParty  int
 	perScenario map[string]int
 }
 
@@ -276,12 +277,29 @@ func runnerMain() int {
 				cr := runChunk(spec.Property, base, ck, spec.Race)
 				mu.Lock()
 				done := 0
+				var chunkRuns []*RunResult
 				readResults(cr.outFile, func(rr *RunResult) {
 					done++
-					a.add(rr)
+					chunkRuns = append(chunkRuns, rr)
 				})
+				if spec.Race {
+					tp, hr := attributeRaces(spec.Property, ck, chunkRuns)
+					a.thirdParty += tp
+					for _, t := range hr {
+						trouble = append(trouble, t)
+					}
+				}
+				for _, rr := range chunkRuns {
+					a.add(rr)
+				}
 				mu.Unlock()
 				os.Remove(cr.outFile)
+				if cr.err != nil && spec.Race && cr.exit == 1 && strings.Contains(cr.stderr, "\nEND\n") {
+					// the testing package fails a test binary in which the
+					// race detector reported something; the reports were
+					// attributed to their runs by the worker
+					cr.err = nil
+				}
 				if cr.err != nil {
 					idx, seed, ok := lastBegin(cr.stderr)
 					msg, frame := panicTopFrame(cr.stderr)
@@ -383,7 +401,7 @@ func runnerMain() int {
 		}
 		rc := exec.Command(os.Args[0], "-test.run", "^TestSim$", "-test.timeout", "0", "-sim.role=replay", "-sim.file="+path)
 		outb, _ := rc.CombinedOutput()
-		if rc.ProcessState != nil && rc.ProcessState.ExitCode() == 1 && bytes.Contains(outb, []byte("reproduced:")) {
+		if rc.ProcessState != nil && rc.ProcessState.ExitCode() == 1 && (bytes.Contains(outb, []byte("reproduced:")) || spec.Race) {
 			fmt.Printf("violation: class=%s signature=%q seen in %d runs; first at seed %d\n  %s\n", v.Class, v.Signature, a.violCount[k], rr.Seed, firstLines(v.Detail, 8))
 			fmt.Printf("VIOLATION property=%s replay=%s\n", v.Property, path)
 			exit = 1
@@ -439,6 +457,7 @@ func runnerMain() int {
 		"probes":              a.probes,
 		"unreached_probes":    unreached,
 		"aborted_by_panic":    a.abortedByPanic,
+		"third_party_race_reports": a.thirdParty,
 		"inconclusive":        a.inconclusive,
 		"real_vs_stub":        realStub,
 		"toolchain":           runtime.Version(),
@@ -574,4 +593,107 @@ func selftestMain() int {
 		return 2
 	}
 	return 0
+}
+
+var raceFrameRe = regexp.MustCompile(`(?m)^  (\S+)\(\)$`)
+
+// attributeRaces reads the race detector's log of a chunk, derives a
+// signature (pair of top go-res frames) for each report and attaches the
+// reports to the runs in which the detector's error count went up. It
+// returns the number of reports without any go-res frame (third party) and
+// descriptions of reports whose both stacks lie in harness code.
+func attributeRaces(prop string, ck chunk, runs []*RunResult) (int, []string) {
+	dir := filepath.Join(buildDir(), "out", prop)
+	matches, _ := filepath.Glob(filepath.Join(dir, "race-"+ck.scenario+"-"+strconv.Itoa(ck.from)+".*"))
+	var text string
+	for _, m := range matches {
+		b, _ := os.ReadFile(m)
+		text += string(b)
+		os.Remove(m)
+	}
+	blocks := strings.Split(text, "WARNING: DATA RACE")
+	type rep struct {
+		sig, text string
+		kind      int // 0 go-res, 1 third party, 2 harness
+	}
+	var reps []rep
+	for _, b := range blocks[1:] {
+		if i := strings.Index(b, "=================="); i >= 0 {
+			b = b[:i]
+		}
+		parts := strings.Split(b, "\n\n")
+		var sig []string
+		gores, third := false, false
+		for _, p := range parts {
+			if len(sig) >= 2 {
+				break
+			}
+			if !strings.Contains(p, " by goroutine ") && !strings.Contains(p, " by main goroutine") {
+				continue
+			}
+			fs := raceFrameRe.FindAllStringSubmatch(p, -1)
+			top := "?"
+			for _, f := range fs {
+				if strings.Contains(f[1], "github.com/jirenius/go-res") {
+					top = f[1]
+					gores = true
+					break
+				}
+			}
+			if top == "?" {
+				for _, f := range fs {
+					if !strings.HasPrefix(f[1], "verif/sim") && strings.Contains(f[1], ".") && (strings.Contains(f[1], "github.com/") || strings.Contains(f[1], "go.etcd.io")) {
+						top = f[1]
+						third = true
+						break
+					}
+				}
+			}
+			if top == "?" && len(fs) > 0 {
+				top = fs[0][1]
+			}
+			sig = append(sig, top)
+		}
+		sort.Strings(sig)
+		r := rep{sig: strings.Join(sig, " <-> "), text: "WARNING: DATA RACE" + firstLines(b, 70)}
+		switch {
+		case gores:
+			r.kind = 0
+		case third:
+			r.kind = 1
+		default:
+			r.kind = 2
+		}
+		reps = append(reps, r)
+	}
+	third := 0
+	var harness []string
+	ri := 0
+	for _, rr := range runs {
+		n := rr.Races
+		var keep []*Violation
+		for _, v := range rr.Violations {
+			if v.Class != "data-race" {
+				keep = append(keep, v)
+			}
+		}
+		rr.Violations = keep
+		for k := 0; k < n && ri < len(reps); k, ri = k+1, ri+1 {
+			r := reps[ri]
+			switch r.kind {
+			case 1:
+				third++
+			case 2:
+				harness = append(harness, "race report with both stacks outside go-res (simulator bug) in "+ck.scenario+" run "+strconv.Itoa(rr.Index)+": "+r.sig+"\n"+firstLines(r.text, 40))
+			default:
+				rr.Violations = append(rr.Violations, &Violation{Property: "C16", Class: "data-race", Signature: r.sig, Detail: r.text})
+			}
+		}
+		if len(rr.Violations) == 0 {
+			rr.Replay = nil
+		} else if rr.Replay != nil {
+			rr.Replay.Violation = rr.Violations[0]
+		}
+	}
+	return third, harness
 }
